@@ -5,6 +5,8 @@ Lemmas for C05, store side: the keyed map, `apply_map`, the fold of store operat
 import SwimVerif.Model.Persist
 import SwimVerif.Proofs.AssocList
 
+set_option linter.unusedSectionVars false
+set_option linter.unusedSimpArgs false
 namespace SwimVerif.Persist
 
 section
